@@ -603,7 +603,7 @@ pub fn run(run: &Run) {
 	run.set_level("fault_enumeration");
 	run.set_rule("import graphs of 2-7 files (code / text / binary; import, importstr, importbin; tree, diamond, chain, strict and lazy cycles) laid out over the importer's directory, a sub-directory and 0-3 library directories with shadowing decoys, path spellings (plain, ./, sub/../, absolute, through symlinks) and disk faults (target is a directory, deleted, dangling symlink, symlink loop, invalid UTF-8). Oracle: a resolution model (importer directory first, then the search path in order) gives the expected value or failure; a recording wrapper around the real FileImportResolver shows every file loaded and evaluated at most once per state; then EVERY resolve call and EVERY load call of the fault-free run is failed in turn (fault enumeration): the evaluation fails, an unrelated file still imports, and once the fault has cleared the same state gives the fresh-state result. A sample goes through the executable (-J order, JSONNET_PATH). Non-trivial = shadowing, symlink, cycle, disk fault or injected faults.");
 	run.assume("file permission faults cannot be produced on disk (the sandbox runs as root): they are represented by the injected ImportIo failures");
-	let n = run.tier.pick(2_000, 30_000);
+	let n = run.tier.pick(8_000, 80_000);
 	let counter = std::sync::atomic::AtomicU64::new(0);
 	let poison_known = run.is_known(K_POISONED);
 	run.reproduce_known(|k| {
